@@ -45,18 +45,20 @@ Print Assumptions C09_faults_eq_spec.
    fault by the reference, the challenge counter by the number of items, every verdict is the
    reference verdict *)
 Theorem C09_counter_rises_by_one_per_faulted_item : forall rf active its st st' vs,
+  active <> [] ->
   Forall (fun it => item_wf it = true) its ->
   tally_block rf active its st = Some (st', vs) ->
   (forall x, ts_fc st' x = ts_fc st x +
              Z.of_nat (length (filter (fun it => faulted_spec rf active it x) its))) /\
   ts_cc st' = ts_cc st + Z.of_nat (length its) /\
-  vs = map (verdict_spec rf) its.
+  vs = map (fun it => Some (verdict_spec rf it)) its.
 Proof. exact counter_rises_by_one_per_faulted_item. Qed.
 Print Assumptions C09_counter_rises_by_one_per_faulted_item.
 
 (* ... "and in what order": any permutation of the items of a block gives the same counters,
    and every item the verdict it gets alone (no well-formedness hypothesis needed) *)
 Theorem C09_tally_order_independent : forall rf active its its' st st1 vs1,
+  active <> [] ->
   Permutation its its' ->
   tally_block rf active its st = Some (st1, vs1) ->
   exists st2 vs2,
@@ -65,6 +67,13 @@ Theorem C09_tally_order_independent : forall rf active its its' st st1 vs1,
     Forall2 (item_verdict rf active) its vs1 /\ Forall2 (item_verdict rf active) its' vs2.
 Proof. exact tally_order_independent. Qed.
 Print Assumptions C09_tally_order_independent.
+
+(* without a bonded validator GetZkpThreshold fails for every item and the tally skips it:
+   nothing changes (the verdict list carries None = still Challenging), in any order *)
+Theorem C09_tally_no_bonded_validator : forall rf its st,
+  tally_block rf [] its st = Some (st, map (fun _ => None) its).
+Proof. intros. exact (tally_items_noactive true true true rf its [] st). Qed.
+Print Assumptions C09_tally_no_bonded_validator.
 
 (* grouping: one block tallying a ++ b = a block tallying a followed by a block tallying b *)
 Theorem C09_tally_split_blocks : forall rf active a b st,
@@ -112,6 +121,19 @@ Theorem C09_safe_threshold_bracket : forall rf n parity t,
   3 * n * t <= 2 * rf * (n - parity) < 3 * n * t + 5 * n.
 Proof. exact safe_thr_bracket. Qed.
 Print Assumptions C09_safe_threshold_bracket.
+
+(* GetZkpThreshold as rewritten by commit 9a90e6f (decimal clamp, no int64 detour) returns what
+   the former min(max(ceil(..).TruncateInt64(),1),n) returned wherever that did not panic, and
+   lies in 1..n *)
+Theorem C09_zkp_threshold_same_as_old : forall rf n nact t,
+  1 <= n -> zkp_threshold_old rf n nact = Some t -> zkp_threshold rf n nact = Some t.
+Proof. exact zkp_threshold_same_as_old. Qed.
+Print Assumptions C09_zkp_threshold_same_as_old.
+
+Theorem C09_zkp_threshold_range : forall rf n nact thr,
+  1 <= n -> zkp_threshold rf n nact = Some thr -> 1 <= thr <= n.
+Proof. exact zkp_threshold_range. Qed.
+Print Assumptions C09_zkp_threshold_range.
 
 (* Go's map iteration order is not observable in the tally *)
 Theorem C09_map_order_irrelevant : forall g rf active fs0 it cnt cnt' sub r,
@@ -179,7 +201,7 @@ Example C09_nonvacuous :
   let st := {| ts_fc := fun v => if v =? 4 then 2 else 0; ts_cc := 1 |} in
   Forall (fun it => item_wf it = true) its /\
   exists st' vs, tally_block rf3 active its st = Some (st', vs) /\
-    vs = [Verified; Verified; Verified] /\ ts_fc st' 4 = 4 /\ ts_fc st' 1 = 0 /\ ts_cc st' = 4 /\
+    vs = [Some Verified; Some Verified; Some Verified] /\ ts_fc st' 4 = 4 /\ ts_fc st' 1 = 0 /\ ts_cc st' = 4 /\
     exists sl st'', slash_epoch true (P / 2) w_info [1; 2; 3; 4] st' = Some (sl, st'') /\
       sl = [4] /\ NoDup [1; 2; 3; 4] /\ 0 <= P / 2 /\ 0 <= ts_cc st'.
 Proof.
@@ -197,7 +219,7 @@ Qed.
 Theorem C09_end_block_spec : forall rf sft epoch active info dom its st st' vs sl,
   Forall (fun it => item_wf it = true) its -> NoDup dom ->
   end_block all_fixed rf sft epoch active info dom its st = Some (st', vs, sl) ->
-  vs = map (verdict_spec rf) its /\
+  vs = expected_verdicts rf active its /\
   if epoch then
     (forall v, In v sl <-> In v dom /\ slashed_spec sft info (mid_of rf active its st) v = true) /\
     (forall v, In v dom -> ts_fc st' v = 0) /\ ts_cc st' = 0
